@@ -68,6 +68,7 @@ func c02Schema(r *rng.Rand) *spec.Node {
 	o.ModChains = r.Intn(3) == 0
 	o.Share = r.Intn(5) == 0
 	o.Pre = r.Intn(4) == 0
+	o.Coercers = r.Intn(4) == 0
 	switch r.Intn(10) {
 	case 0:
 		o.TopKinds = []spec.Kind{spec.Slice}
@@ -164,6 +165,14 @@ func c02Fronts(c *core.Ctx) {
 }
 
 func (c02) RunCase(c *core.Ctx) {
+	if c.Case%100 == 41 {
+		// a struct behind Preprocess is handed the field's own value and reports exactly the violations of what the function returned
+		c.Eval(1)
+		if problem := dPreprocessStruct(); problem != "" {
+			c.Violation("issues-differ|Parse|preprocess-around-struct", map[string]any{"schema": "{order: Preprocess(fn -> Order{Qty, Paid, Note}, Struct{Qty: Int().GTE(1), Paid: Bool().True(), Note: String()}), ID: String()}", "observed": problem})
+			return
+		}
+	}
 	if c.Case%5 == 4 {
 		c02Fronts(c)
 		return
